@@ -45,6 +45,9 @@ func genStress(r *eng.Rng, th bool, race bool) StressParams {
 			p.Batches = 30 + r.Intn(50)
 		}
 	}
+	if p.Children > 0 && r.Chance(1, 2) {
+		p.ChildOnly = true
+	}
 	if race {
 		p.Batches = 30 + r.Intn(60)
 		p.Extras = true
@@ -70,6 +73,9 @@ func stressUnits(p StressParams, res *StressResult, add func(string)) {
 	}
 	if p.Children > 0 {
 		add(b + "|children")
+	}
+	if p.ChildOnly {
+		add(b + "|child-only-batches")
 	}
 	if p.Cfg.DeferredSort {
 		add(b + "|defsort")
